@@ -443,6 +443,8 @@ func (vc *FnVC) checkRangeWrite(m modItem, pos token.Pos) {
 	for _, a := range vc.allocRefs {
 		alts = append(alts, fmt.Sprintf("(= %s %s)", m.ref, a))
 	}
+	vc.decl("allocated0", "(declare-fun allocated0 (Int) Bool)")
+	alts = append(alts, fmt.Sprintf("(not (allocated0 %s))", m.ref))
 	cond := "false"
 	if len(alts) > 0 {
 		cond = "(or " + strings.Join(alts, " ") + " false)"
@@ -634,6 +636,7 @@ func (vc *FnVC) appendBuiltin(in *ssa.Call) {
 		for _, a := range vc.allocRefs {
 			alts = append(alts, fmt.Sprintf("(= %s %s)", arr, a))
 		}
+		alts = append(alts, fmt.Sprintf("(not (allocated0 %s))", arr))
 		cond := fmt.Sprintf("(or (not %s) (= %s 0) %s false)", fits, tlen, strings.Join(alts, " "))
 		vc.obAssert("frame", "frame@append("+vc.valueText(args[0])+")", "in-place append writes only permitted memory", cond, in.Pos())
 	}
